@@ -56,10 +56,10 @@ func init() {
 			"Every message has its own budget: attempt counts, hook delays and back-off gaps are judged exactly as in class schedule as long as the harness's own measurement shows that the message's budget was not used up " +
 			"(start of the retry - end of attempt 1 <= E for delays/gaps, return - end of attempt 1 < E for a lower call count); beyond that the observation is tolerated and counted (own_budget_used_up). " +
 			"j%3==1 = class redeliver: a schedule-class config with MaxElapsedTime 0 / 1 h / 5..30 s; ONE *message.Message (context.Background or a cancelable context that the harness never cancels) is presented 4-6 times in a row to wrapped Retry handlers " +
-			"(two instances of the config, one with and one without MaxElapsedTime, picked at random per delivery) with the schedule-class scripts: every delivery must get its full number of attempts (unless the harness's own measurement cannot exclude that a seconds-range MaxElapsedTime was used up), and the message context must not have ended when Retry returns. " +
+			"(two instances of the config, one with and one without MaxElapsedTime, picked at random per delivery) with the schedule-class scripts: every delivery must get its full number of attempts (unless the harness's own measurement cannot exclude that a seconds-range MaxElapsedTime was used up). " +
 			"j%3==2 = class nested: outer Retry (MaxRetries 1..4) wrapped around inner Retry (MaxRetries 1..4) wrapped around the scripted handler (fail forever / succeed at global attempt g), MaxElapsedTime 0 or 1 h on each level, intervals 0 / 0.1..2 ms: " +
 			"each level is judged like a schedule-class invocation (the inner chain is the outer level's handler), i.e. the handler runs min(g, (MRo+1)(MRi+1)) times, the outer hook is numbered 1.. once per failed outer retry, each inner run has its own hook numbering and back-off progression. " +
-			"In the classes schedule, redeliver, nested and long-lived the harness never ends the message context, so it must not be ended when Retry returns (clause ctx-ended-by-retry; a replaced but live context is only counted: msg_context_replaced). " +
+			"In the classes schedule, redeliver, nested and long-lived the harness never ends the message context, so every delivery and every nesting level must get its full number of attempts; a context that Retry itself left ended or replaced on the message is only counted (msg_context_ended_by_retry, msg_context_replaced). " +
 			"Non-trivial: schedule = at least one retry was made and at least one hook delay and one back-off gap were judged; ctx/elapsed = Retry gave up with fewer than MaxRetries+1 calls; long-lived = a message first failed later than E after Middleware() was called and at least one of its back-off gaps was judged inside its own budget; redeliver = a delivery after an earlier failing delivery of the same object made a retry; nested = the outer level retried after the inner level had retried. " +
 			"Distinct = distinct (class, config, scripts, observed call counts).",
 		Assumptions: []string{
@@ -72,7 +72,7 @@ func init() {
 			"class elapsed judges only: fewer than MaxRetries+1 calls, non-nil last error, hook numbering, gap >= reported delay; a delay of -1 (backoff.Stop) is tolerated there; inconclusive when the harness's own control timer of MaxElapsedTime fired > 50 ms late",
 			"a returned error is accepted when it is the last attempt's error value or wraps it (errors.Is)",
 			"'MaxElapsedTime passes' is per message: the budget of a message starts no earlier than the end of its first (failed) attempt, whatever the age of the middleware instance; the harness measures from the end of attempt 1 (taken inside the handler, so not later than Retry's own start) to the start of the retry / to the return (taken outside, so not earlier than Retry's own reading): 'budget not used up' by this measurement implies the same for Retry's own clock, the converse is tolerated",
-			"'the message context ends' refers to the context the caller put on the message: a Retry that ends the message's context itself (observed as msg.Context().Err() != nil after the call while the harness's context is alive) makes its own give-up condition true for every later Retry that sees the message and is reported (ctx-ended-by-retry); the consequences (a later delivery / an outer Retry giving up with no reason) are judged by the ordinary calls clause",
+			"'the message context ends' refers to the context the caller put on the message: a Retry that ends the message's context itself (observed as msg.Context().Err() != nil after the call while the harness's context is alive) makes its own give-up condition true for every later Retry that sees the message; that is counted (msg_context_ended_by_retry), and the consequences (a later delivery / an outer Retry giving up although nobody ended the context) are judged by the ordinary calls clause",
 			"class nested: a failed inner chain counts as one failed attempt of the outer level; the product rule for the number of handler runs follows from judging both levels",
 		},
 		Run: run,
@@ -500,7 +500,9 @@ func judge(res *vlib.Result, c cfg, iv *invocation, ex expect) int {
 		events++
 		res.Count("msg_context_checked", 1)
 		if iv.ctxErrAfter != nil {
-			fail("ctx-ended-by-retry", "nobody but Retry touched the message context, yet msg.Context().Err() = %q when Retry returned after %d handler calls (context before the call: %T, after: %T): any later Retry that sees this message gives up at once", iv.ctxErrAfter.Error(), n, iv.ctxBefore, iv.ctxAfter)
+			// Not a clause: the statement speaks about attempts, not about the context Retry leaves behind. What follows
+			// from it (a later delivery / an outer Retry giving up although nobody ended the context) is judged by "calls".
+			res.Count("msg_context_ended_by_retry", 1)
 		} else if !sameCtx(iv.ctxAfter, iv.ctxBefore) {
 			res.Count("msg_context_replaced", 1)
 		}
